@@ -62,9 +62,19 @@ def ordinal_keys(calls):
 
 
 def latch_mark(f):
+    lf = roles.live_field(f)
+    direct = set()
+    for (b, bb, j, dst, rv, s, final) in f.field_stores(roles.CONN, lf):
+        t = b.rvalue_term(rv)
+        if t[0] == "const" and t[2] == 0:
+            direct.add((b.name, bb))
+
     def mark(body, bb):
         c = body.calls.get(bb)
-        return c is not None and roles.call_latches(f, c)
+        if c is not None and roles.call_latches(f, c):
+            return True
+        # the latch written in place (`self.live = false;`) instead of through the teardown function
+        return (body.name, bb) in direct
     return mark
 
 
